@@ -222,8 +222,15 @@ def foreign_attrs_directed():
     out = []
     at = [' xmlns="http://www.w3.org/2000/svg"', ' xmlns="http://www.w3.org/1998/Math/MathML"', ' xmlns=x',
           ' xmlns:xlink="http://www.w3.org/1999/xlink"', " xlink:href=#a", " xml:lang=en", " xml:space=preserve", " xlink:title=t",
-          " xmlns:foo=bar", " foo:bar=1", " definitionurl=u", " viewbox=1", " xml:base=b", " xlink:foo=x", " xmlns:xlink=y"]
-    for root in ("svg", "math", "div", "svg><g", "math><mi", "svg><foreignObject><p", "table><svg"):
+          " xmlns:foo=bar", " foo:bar=1", " definitionurl=u", " viewbox=1", " xml:base=b", " xlink:foo=x", " xmlns:xlink=y",
+          # plain namesakes of adjusted attributes on the same element
+          " href=#new", " lang=fr", " title=t", " space=default", " base=c"]
+    # breakout start tags that carry foreign-adjustable attributes while an SVG/MathML element is the current node
+    for root in ("<svg>", "<math>", "<p>a<svg><g>", "<table><svg>", "<svg><desc>", "<math><mi>"):
+        for tag in ("body", "html", "p", "div", "b", "table", "font color=red", "head", "br", "img"):
+            for a in (" xlink:href=x", " xml:space=preserve class=c", " xmlns:xlink=u", " xmlns=v id=i"):
+                out.append("%s<%s%s>b" % (root, tag, a))
+    for root in ("svg", "math", "div", "svg><g", "math><mi", "svg><foreignObject><p", "table><svg", "svg><use", "math><mi"):
         for i in range(len(at)):
             a = at[i] + at[(i * 5 + 3) % len(at)]
             out.append("<%s%s>x" % (root, a))
